@@ -14,7 +14,7 @@ Require Import SDS.Model.Mach SDS.Model.Raw SDS.Model.IntVec SDS.Model.BitVec SD
 Require Import SDS.Model.Sparse SDS.Model.RL SDS.Model.WM.
 Require Import SDS.Spec.BitSeq SDS.Spec.Utf8 SDS.Spec.Runs.
 Require Import SDS.Proofs.RawProof SDS.Proofs.IntVecProof.
-Require SDS.Spec.Format SDS.Proofs.FormatProof SDS.Proofs.FormatConform.
+Require SDS.Spec.Format SDS.Proofs.FormatProof SDS.Proofs.FormatRL SDS.Proofs.FormatConform.
 Import ListNotations.
 Open Scope N_scope.
 Module F := SDS.Spec.Format.
@@ -87,11 +87,17 @@ Theorem C07_doc_roundtrip_sparse : forall w n items,
 Proof. exact FormatProof.roundtrip_sparse. Qed.
 Print Assumptions C07_doc_roundtrip_sparse.
 
-(* run-length bitvectors and wavelet matrices: stated (see "partial"); instances are evaluated below and by
-   every READ case of the correspondence run (the harness' file must equal doc_encode and be doc_valid) *)
-Definition C07_doc_roundtrip_rl_statement : Prop := forall len runs,
-  runs_maximal true 0 runs -> runs_end runs <= len -> len < 2 ^ 64 ->
+(* run-length bitvectors: any maximal runs inside the length (fewer than 2^55 of them: the code units of more
+   runs would need a raw bitvector longer than an element can say). No writer-side freedom exists: this is the
+   greedy packing into 64-unit blocks, the padding rule, the final block, the samples and their minimal width *)
+Theorem C07_doc_roundtrip_rl : forall len runs,
+  runs_maximal true 0 runs -> runs_end runs <= len -> len < 2 ^ 64 -> F.lenN runs < 2 ^ 55 ->
   F.doc_valid_rl (F.doc_encode_rl (len, runs)) = true /\ F.doc_content_rl (F.doc_encode_rl (len, runs)) = Some (len, runs).
+Proof. exact FormatRL.roundtrip_rl. Qed.
+Print Assumptions C07_doc_roundtrip_rl.
+
+(* wavelet matrices: stated (see "partial"); instances are evaluated below and by every READ case of the
+   correspondence run (the harness' file must equal doc_encode and be doc_valid) *)
 Definition C07_doc_roundtrip_wmcore_statement : Prop := forall width items,
   1 <= width <= 64 -> F.lenN items < 2 ^ 64 -> Forall (fun v => v < 2 ^ width) items ->
   F.doc_valid_wmcore (F.doc_encode_wmcore (width, items)) = true /\
